@@ -418,3 +418,33 @@ func isSubmitterFn(fn *ssa.Function) bool {
 	}
 	return false
 }
+
+// bodyCtxs: the contexts in which the body of fn is found: fn itself and each of its closures
+// bound at the place it is created (so that captured variables resolve to fn's values).
+func bodyCtxs(fn *ssa.Function) []*Ctx {
+	root := &Ctx{Fn: fn}
+	out := []*Ctx{root}
+	var walk func(f *ssa.Function, cx *Ctx, d int)
+	walk = func(f *ssa.Function, cx *Ctx, d int) {
+		if d > 3 {
+			return
+		}
+		for _, b := range f.Blocks {
+			for _, in := range b.Instrs {
+				mc, ok := in.(*ssa.MakeClosure)
+				if !ok {
+					continue
+				}
+				cf, _ := mc.Fn.(*ssa.Function)
+				if cf == nil {
+					continue
+				}
+				ccx := &Ctx{Parent: cx, Fn: cf, Closure: mc, ClosureCtx: cx, Depth: cx.Depth + 1}
+				out = append(out, ccx)
+				walk(cf, ccx, d+1)
+			}
+		}
+	}
+	walk(fn, root, 0)
+	return out
+}
